@@ -31,4 +31,7 @@ def check(model, tier):
     merge.r05_6_who_may_elide(ctx)
     expressions.r13_1_as_trivial(ctx, rule="R05.7")
     expressions.r12_3_connectives(ctx, rule="R05.8")
+    from ..rules.foundation import run_foundation
+
+    run_foundation(ctx, "05")
     return run
